@@ -85,9 +85,13 @@ Fixpoint dlookup (w : Z) (d : list (Z * bool)) : option bool :=
   match d with [] => None | (k, v) :: r => if k =? w then Some v else dlookup w r end.
 Definition optb_eqb (a b : option bool) : bool :=
   match a, b with Some x, Some y => Bool.eqb x y | None, None => true | _, _ => false end.
-(* dict equality: same number of keys and every binding of d1 is a binding of d2 *)
+(* dict equality: same number of keys, every binding of d1 is a binding of d2 and conversely
+   (for dictionaries, i.e. unique keys, the converse is implied; it is kept so that the test is
+   symmetric by construction) *)
+Definition dict_sub (d1 d2 : list (Z * bool)) : bool :=
+  forallb (fun kv => optb_eqb (dlookup (fst kv) d2) (Some (snd kv))) d1.
 Definition dict_eqb (d1 d2 : list (Z * bool)) : bool :=
-  (length d1 =? length d2)%nat && forallb (fun kv => optb_eqb (dlookup (fst kv) d2) (Some (snd kv))) d1.
+  (length d1 =? length d2)%nat && dict_sub d1 d2 && dict_sub d2 d1.
 Definition ctrl_dict_eqb (cw1 : list Z) (cv1 : list bool) (cw2 : list Z) (cv2 : list bool) : bool :=
   dict_eqb (dict_of cw1 cv1 []) (dict_of cw2 cv2 []).
 
